@@ -123,6 +123,11 @@ def run(ctx):
                 ctx.ob("C19.D1.unit", tag, False, f"fails in-domain: {out}", where=f_pi.where, construct="power_iteration fails",
                        loc=f_pi.loc())
                 continue
+            if not (isinstance(out, tuple) and len(out) == 2):
+                ctx.ob("C19.D1.unit", tag, False, "with return_eigenvalue=True the routine does not return (vector, eigenvalue) on this "
+                       "path (e.g. a breakdown exit that returns the bare vector)", where=f_pi.where,
+                       construct="power_iteration return shape", loc=f_pi.loc(), detail=short(out))
+                continue
             v, lam = out
             # reference
             vr = scale(v0, fro(v0).inverse())
